@@ -195,9 +195,6 @@ func c13BuildUnsupported(tier string) core.Source {
 	var cases []cs
 	for _, p := range pats {
 		for _, arr := range drive.Arrangements {
-			if arr == drive.Local {
-				continue // a failing local transfer may deadlock (C18 finding); covered by the other four
-			}
 			cases = append(cases, cs{p, arr, false}, cs{p, arr, true})
 		}
 	}
